@@ -229,6 +229,10 @@ func siblingChecksFrom(p *load.Prog, r *report.Report, prop string, entries []*s
 				fn *ssa.Function
 				m  *sibling.Modulus
 			}{{fa, mp}, {fb, mn}} {
+				if name == "SetOne" {
+					ok, pos, msg := sibling.SetOneOK(x.fn, x.m)
+					r.Check(ok, prop+".sibling", x.fn.Pkg.Pkg.Name()+".SetOne exact", p.Pos(pos), "out1[i] = limb i of R mod m for i = 0..3, each stored once", "generated primitive tampered: "+msg)
+				}
 				res := sibling.CompareLiterals(x.fn, x.m)
 				construct := x.fn.Pkg.Pkg.Name() + "." + name + " literals"
 				if res.Same {
@@ -263,6 +267,20 @@ func siblingChecksFrom(p *load.Prog, r *report.Report, prop string, entries []*s
 			fn, ok := mem.(*ssa.Function)
 			if !ok || !absint.IsFiatLeaf(fn) || !reach[fn] || x.other.Func(name) != nil {
 				continue
+			}
+			switch name {
+			case "Nonzero":
+				ok, pos, msg := sibling.NonzeroOK(fn)
+				r.Check(ok, prop+".sibling", fn.Pkg.Pkg.Name()+".Nonzero exact (no sibling)", p.Pos(pos), "*out1 = arg1[0] | arg1[1] | arg1[2] | arg1[3]", "generated primitive tampered: "+msg)
+			case "Opp":
+				if sub := x.pkg.Func("Sub"); sub != nil {
+					res := sibling.CompareOppSub(fn, sub, x.m)
+					if res.Same {
+						r.OK(prop+".sibling", fn.Pkg.Pkg.Name()+".Opp ~ "+fn.Pkg.Pkg.Name()+".Sub with a zero minuend (no sibling)", fmt.Sprintf("identical data-flow graphs (%d output stores, %d node pairs)", res.Stores, res.Nodes))
+					} else {
+						r.Fail(prop+".sibling", fn.Pkg.Pkg.Name()+".Opp ~ "+fn.Pkg.Pkg.Name()+".Sub with a zero minuend (no sibling)", p.Pos(res.Diff.Pos), "generated primitive tampered: Opp is not the subtraction from zero: "+res.Diff.Msg)
+					}
+				}
 			}
 			res := sibling.CompareLiterals(fn, x.m)
 			construct := fn.Pkg.Pkg.Name() + "." + name + " literals (no sibling)"
